@@ -8,13 +8,13 @@ CHECKS = {
         'error carrying the value, nil included, never escaping; errors listed by pkg/errors cause -> success; Ack before the call; delay keys only, successes '
         'untouched); for every chain and script the message context after the call is the context before; Retry around any chain of them makes the same '
         'number of attempts as the bare Retry; the DelayOnError schedule min(Initial*(num/den)^(k-1), Max) for rational multipliers >= 1 (closed form where '
-        'the products are whole ns, per-step law and bounds otherwise); Throttle starts spaced by the period over a ticker clock model, for every assignment of live / ended / ending message contexts. The two defects '
+        'the products are whole ns, per-step law and bounds otherwise); Duplicator runs the handler twice iff the first call succeeded and RandomFail / RandomPanic are transparent or short-circuit by the draw; Throttle starts spaced by the period over a ticker clock model, for every assignment of live / ended / ending message contexts. The two defects '
         '(D2 multiplier truncated, D3 Timeout leaves the context cancelled) are _refuted theorems for the pinned variant and repaired by two fix: commits. '
         'Tied to the code on every run: ~1250 cases of random chains of the REAL middlewares (alone, stacked, under the real Retry; one chain value shared by '
         '1/2/4 messages in flight; 1..8 invocations on the same message) around scripted handlers, compared with the model on everything observable and judged '
         'by the clause-wise acceptor; Throttle start times (messages with live, already ended and ending-while-waiting contexts, alone and interleaved through one value) judged by the spacing predicate of the theorem.'),
   note=('Trusted: Coq kernel + vm_compute; Go defer/recover, context cancellation/deadline, time.Ticker, gobreaker (closed), pkg/errors as modelled; the Go harness '
-        '(scripted handler, pointer/identity decoding, canonicalisation of delay metadata) and checks/c19.py. Proved as one theorem (C19_model_accepted): the repaired model passes the acceptor the check evaluates, for every chain, script and message; Retry anywhere in the chain keeps the attempt count; deadline lower bound over a clock model; messages arriving with a deadline. Partial: Throttle rate and the deadline lower bound on the implementation are '
+        '(scripted handler, pointer/identity decoding, canonicalisation of delay metadata) and checks/c19.py. Every acceptor the check evaluates on implementation traces is linked to the model by a theorem (C19_chain_model_accepted for whole cases, C19_extra_case_model_accepted, C19_throttle_*_model_accepted, C19_deadline_model_accepted); Duplicator, RandomFail and RandomPanic are modelled, proved (runs twice iff the first call succeeded / transparent or short-circuit by the draw) and tied with a mirrored math/rand; Recoverer and InstantAck are composed with the Router model of C02 (Nack / Acked). Proved as one theorem (C19_model_accepted): the repaired model passes the acceptor the check evaluates, for every chain, script and message; Retry anywhere in the chain keeps the attempt count; deadline lower bound over a clock model; messages arriving with a deadline. Partial: Throttle rate and the deadline lower bound on the implementation are '
         'wall-clock lower bounds; IEEE rounding excluded by dyadic multipliers; chains with a second Retry inside the first are compared with the model but not judged.'),
   technique='Coq proof (frame lemmas for arbitrary inner handlers, simulation + induction over chains and the retry loop, nia for the schedule, invariant of the ticker model) + differential correspondence check on the real middlewares + executable clause-wise acceptor',
   design_ref='DESIGN.md section 7 C12/C13/C19'),
